@@ -1716,12 +1716,35 @@ def r6(cx):
     gl = Q.find_calls(body, GLOB)
     for lab, cs in (('initial expansion', ex), ('split_into', sp), ('glob', gl)):
         cx.site('%s: %s x%d%s' % (fn, lab, len(cs), (' at ' + body.loc(cs[0][1])) if cs else ''))
-    missing = [lab for lab, cs in (('initial expansion', ex), ('field splitting', sp), ('pathname expansion', gl)) if len(cs) != 1]
+    # splitting written as an iterator adaptor (`.map(|chars| ..split_into..)`): the call sits in a closure of this function.
+    # The order is then decided on the block that creates the closure; the data flow through the closure is not followed.
+    closure_form = False
+    if not sp and len(ex) == 1 and len(gl) == 1:
+        for lb in F.logical(fn):
+            if lb.fn != body.fn and Q.find_calls(lb, SPLIT_INTO):
+                made = [(b, j, s_) for b, j, s_ in body.stmts() if s_['k'] == 'assign' and s_['rv']['k'] == 'agg'
+                        and s_['rv'].get('def') == lb.fn]
+                if len(made) == 1:
+                    closure_form = True
+                    cb = made[0][0]
+                    (eb, et), (gb, gt) = ex[0], gl[0]
+                    cx.site('%s: split_into inside closure %s created at %s' % (fn, lb.fn, body.loc(made[0][2])))
+                    if not body.dominates(eb, cb):
+                        cx.violation(fn, 'order:expand<split', 'field splitting can run before the initial expansion', loc=body.loc(made[0][2]))
+                    if cb in body.reachable(gb) and not body.dominates(cb, gb):
+                        cx.violation(fn, 'order:split<glob', 'field splitting can run after pathname expansion has started',
+                                     loc=body.loc(made[0][2]))
+                    if not body.dominates(cb, gb):
+                        cx.violation(fn, 'order:split<glob', 'pathname expansion is not preceded by field splitting', loc=body.loc(gt))
+    missing = [] if closure_form else \
+        [lab for lab, cs in (('initial expansion', ex), ('field splitting', sp), ('pathname expansion', gl)) if len(cs) != 1]
     if missing:
         for lab in missing:
             cx.violation(fn, 'missing-step:%s' % lab, 'expand_word_multiple must perform %s exactly once per word' % lab,
                          loc=body.loc(body.d))
         return
+    if closure_form:
+        return _r6_rest(cx, F, fn, body)
     (eb, et), (sb, st), (gb, gt) = ex[0], sp[0], gl[0]
     if not body.dominates(eb, sb) or not body.dominates(eb, gb):
         cx.violation(fn, 'order:expand<split', 'field splitting or pathname expansion can run before the initial expansion',
@@ -1757,6 +1780,10 @@ def r6(cx):
     t_ifs = Q.forward_taint(body, seeds) if seeds else set()
     if Q.operand_local(st['a'][1]) not in t_ifs:
         cx.violation(fn, 'flow:IFS->split', 'field splitting does not use the value of $IFS', loc=body.loc(st))
+    _r6_rest(cx, F, fn, body)
+
+
+def _r6_rest(cx, F, fn, body):
     # an unset IFS means the default separators: Ifs::default() is Ifs::new(IFS_INITIAL_VALUE)
     hd = F.hir_of("<%s<'_> as core::default::Default>::default" % IFS)
     c_ok = any(x.get('k') == 'path' and x.get('def') == IFS + "::<'a>::DEFAULT" for x in H.walk(hd['body'])) and \
